@@ -80,6 +80,7 @@ func (g *Gen) makeMap(x *ssa.MakeMap) {
 }
 
 func (g *Gen) mapUpdate(x *ssa.MapUpdate) {
+	g.mapUpdateAnchor(x)
 	m := g.term(x.Map)
 	k := g.mapKey(g.term(x.Key), x.Map.Type().Underlying().(*types.Map))
 	val := g.term(x.Value)
